@@ -328,8 +328,17 @@ struct Dumper {
         if (FD->isMutable()) OS << ",\"mutable\":1";
         if (FD->getType()->isReferenceType()) OS << ",\"fref\":1";
         if (FD->getType()->isArrayType()) {
-          if (const auto *CAT = Ctx.getAsConstantArrayType(FD->getType()))
+          if (const auto *CAT = Ctx.getAsConstantArrayType(FD->getType())) {
             OS << ",\"farr\":" << CAT->getSize().getZExtValue();
+            // every extent of a multi-dimensional member array
+            OS << ",\"fdims\":[" << CAT->getSize().getZExtValue();
+            QualType ET = CAT->getElementType();
+            while (const auto *Inner = Ctx.getAsConstantArrayType(ET)) {
+              OS << "," << Inner->getSize().getZExtValue();
+              ET = Inner->getElementType();
+            }
+            OS << "]";
+          }
         }
       }
       if (const auto *VD = dyn_cast<VarDecl>(D)) { // static member accessed through object
@@ -628,6 +637,10 @@ struct Dumper {
       if (MD->getParent()->isLambda()) OS << ",\"lambda\":1";
     }
     if (isa<CXXDestructorDecl>(FD)) OS << ",\"dtor\":1";
+    if (const auto *FPT = FD->getType()->getAs<FunctionProtoType>()) {
+      // a non-throwing exception specification: an exception that tries to leave the function calls std::terminate
+      if (!isUnresolvedExceptionSpec(FPT->getExceptionSpecType()) && FPT->isNothrow()) OS << ",\"nothrow\":1";
+    }
     OS << ",\"params\":[";
     bool first = true;
     for (const ParmVarDecl *P : FD->parameters()) {
@@ -801,6 +814,13 @@ public:
     if (RD->isLambda()) return true;
     if (!D.inPrefix(RD->getLocation())) return true;
     if (seen.insert(RD).second) records.push_back(RD);
+    // implicitly defined, non-trivial default constructors (they default-construct the members of class type): the
+    // definition the compiler generated is dumped like a written one
+    for (CXXConstructorDecl *CD : RD->ctors()) {
+      if (CD->isImplicit() && CD->isDefaultConstructor() && !CD->isTrivial() && !CD->isDeleted() && CD->doesThisDeclarationHaveABody() &&
+          seen.insert(CD).second)
+        funcs.push_back(CD);
+    }
     return true;
   }
 };
